@@ -26,7 +26,7 @@ Sequence lines:
   gauge.paid    denom:farmer:amt;…
 Monitors (on REAL values): split_sum zero_epochs epoch_cap cumulative_cap farmer_share farmer_share_1e12 custody
   custody_ext_overpaid float_hyp ext_epoch_cap ext_epoch_bound ext_cumulative_cap ext_available_nonneg ext_schedule
-  ext_share_total
+  ext_share_total ext_lend_value_as_amount ext_lend_truncated_total
 -/
 -- DRIVER: prefix=gauge ns=Comdex.Drv.Gauge
 namespace Comdex.Drv.Gauge
@@ -488,7 +488,17 @@ def xMons (tag : String) (st : St) (real : List XRec) : List XRec × List String
       let sched := decide ((r.p.count : Int) ≤ r.p.days) && decide (r.p.total = p.p.total) && decide (r.p.days = p.p.days) &&
         (if adv then p.p.active && decide (p.p.start < now) && decide (r.p.start = now + ExtReward.DAY) && r.p.active
          else same && decide (r.p.start = p.p.start) && (r.p.active == p.p.active || (p.p.active && decide (p.p.start < now) && decide ((p.p.count : Int) ≥ p.p.days))))
-      let out :=
+      -- a lend programme over its cap: which of the two known causes explains it (both can be present)
+      let lendCause : List String :=
+        if cap || r.kind ≠ "B" then [] else
+        match st.lendIns.find? (·.eid = r.eid) with
+        | none => []
+        | some i =>
+          (if i.env.reward.twa ≠ i.env.reward.dec then [s!"MON\t{tag}\text_lend_value_as_amount\tprog={key} twa={i.env.reward.twa} decimals={i.env.reward.dec}"] else []) ++
+          (match xo with
+           | some x => if sumL x.acc.ws ≠ x.acc.tot * Dec.P then [s!"MON\t{tag}\text_lend_truncated_total\tprog={key} total={x.acc.tot}"] else []
+           | none => [])
+      let out := lendCause ++
         (if cap then [] else [s!"MON\t{tag}\text_epoch_cap\tprog={key} paid={paid} avail={p.p.avail} daysLeft={p.p.daysLeft}"]) ++
         (if bound then [] else [s!"MON\t{tag}\text_epoch_bound\tprog={key} paid={paid}"]) ++
         (if hyp then [] else [s!"MON\t{tag}\text_share_total\tprog={key}"]) ++
